@@ -64,7 +64,7 @@ EXPECT_PROBES = ["side_ctl", "side_sw", "fault_len", "fault_type",
                  "fault_random", "victim_closed", "victim_survived",
                  "len_zero", "len_short", "len_long", "victim_slow_reader",
                  "victim_had_unsent_replies", "late_sentinels_sent",
-                 "victim_before_hello"]
+                 "victim_before_hello", "close_callback_raised"]
 
 PORT = G.PORT
 
@@ -129,7 +129,9 @@ def gen_plan(seed, tier):
          "late_sentinels": r.chance(0.5),
          # the damaged stream is the first thing the victim ever receives
          # (no hello from the peer before it)
-         "before_hello": r.chance(0.2)}
+         "before_hello": r.chance(0.2),
+         # the application's close callback of the victim's worker fails
+         "close_cb_raises": r.chance(0.3)}
   if max(len(m) for m in msgs) > 20000 and cfg["recv_mode"] == "dribble":
     cfg["recv_mode"] = "choose"
   return {"prop": PROP, "seed": seed, "cfg": cfg,
@@ -382,6 +384,11 @@ def _drive_sw(sim, plan, known, hit):
   world.boot()
   v = world.ends[0]
   sibs = world.ends[1:]
+  if cfg.get("close_cb_raises"):
+    def bad_close(worker):
+      sim.probes["close_callback_raised"] += 1
+      raise RuntimeError("application close callback fails")
+    world.workers[0].close_handler = bad_close
   early = bool(cfg.get("before_hello"))
   if early:
     sim.probes["victim_before_hello"] += 1
